@@ -900,9 +900,30 @@ def decoder_label_domain(ctx: Any, R: str) -> List[Ob]:
     obs.append(ob(R, dec, f'length < {consts}', 'the decoder takes length < 0x40 as a label and length < 0xC0 (otherwise) as an unknown type', consts == [0x40, 0xC0]))
     link = [st for st in walk_local_ordered(dec.node) if isinstance(st, ast.Assign) and isinstance(st.targets[0], ast.Name) and any(isinstance(x, ast.BinOp) and isinstance(x.op, ast.BitAnd) for x in ast.walk(st.value)) and isinstance(st.value, ast.BinOp)]
     okl = False
-    if len(link) == 1:
-        v = link[0].value
-        okl = isinstance(v, ast.BinOp) and isinstance(v.op, ast.Add) and isinstance(v.left, ast.BinOp) and isinstance(v.left.op, ast.Mult) and prog.try_fold(dec.module, v.left.right) == (True, 256) and isinstance(v.left.left, ast.BinOp) and isinstance(v.left.left.op, ast.BitAnd) and prog.try_fold(dec.module, v.left.left.right) == (True, 0x3F)
+    if len(link) == 1 and len(len_vars) == 1:
+        # by value, over sample bytes (so `* 256 +` and `<< 8 |` are the same thing): the second byte is the subscript at the
+        # offset plus one
+        from .common import expand as _xp
+
+        v = _xp(dec, link[0].value)
+        seconds = []
+        firsts = []
+        for x in ast.walk(v):
+            if isinstance(x, ast.Subscript):
+                try:
+                    px = lf.poly(prog, dec.module, x.slice, lambda y: 'O' if isinstance(y, ast.Name) and y.id == off_p else None)
+                    if px == lf.parse_poly('O + 1'):
+                        seconds.append(norm(x))
+                    elif px == lf.parse_poly('O'):
+                        firsts.append(norm(x))
+                except lf.NotLinear:
+                    pass
+        okl = len(set(seconds)) == 1
+        for L_ in (0xC0, 0xC1, 0xFF, 0xE5):
+            for B_ in (0, 1, 0x80, 0xFF):
+                if okl:
+                    got_l = fd.Evaluator(prog, dec.module, dict({seconds[0]: B_}, **{t_: L_ for t_ in firsts}), {len_vars[0]: L_}).ev(v)
+                    okl = got_l == ((L_ & 0x3F) << 8 | B_)
     obs.append(ob(R, dec, link[0] if link else 'link = ...', 'a pointer is the low 6 bits of the first byte times 256 plus the second byte', okl))
     return obs
 
